@@ -2,6 +2,23 @@
 use crate::model::*;
 use vh_common::*;
 
+/// times are nanoseconds; MS = one millisecond
+const MS: i64 = 1_000_000;
+
+/// instruments by role: two on the first exchange, one on the MIDDLE exchange (whose link can be
+/// broken), one on the last exchange
+struct Topo {
+    g0: usize,
+    g1: usize,
+    bad: usize,
+    far: usize,
+}
+fn topo() -> Topo {
+    let l = layout_of(&instruments());
+    let on = |ex: usize| (0..N_INSTR).filter(|i| l.exch_of_instr[*i] == ex).collect::<Vec<_>>();
+    Topo { g0: on(0)[0], g1: on(0)[1], bad: on(WEAK_EX)[0], far: on(2)[0] }
+}
+
 fn ts() -> TickScript {
     TickScript::default()
 }
@@ -27,7 +44,7 @@ fn input(mode: u8, pre: Vec<(Ev, TickScript)>, feed: Vec<(Ev, TickScript)>) -> I
 fn table_orders(em: &mut Emitter) {
     let s = spec(0, 1);
     let k = key(0, 1);
-    let m0 = || open(1, 100, 10);
+    let m0 = || open(1, 100 * MS, 10);
     let setups: Vec<(&str, Vec<Ev>, Vec<Ev>)> = vec![
         ("none_none", vec![], vec![]),
         ("oif_none", vec![], vec![Ev::CmdOpens(vec![s.clone()])]),
@@ -42,39 +59,46 @@ fn table_orders(em: &mut Emitter) {
     ];
     let fresh = spec(0, 2);
     let ops: Vec<(&str, (Ev, TickScript))> = vec![
-        ("open_newer_partial", step(Ev::Order(s.clone(), open(1, 200, 20)))),
-        ("open_equal_t", step(Ev::Order(s.clone(), open(1, 100, 30)))),
-        ("open_older", step(Ev::Order(s.clone(), open(1, 50, 5)))),
-        ("open_newer_full", step(Ev::Order(s.clone(), open(1, 200, 50)))),
-        ("open_older_full", step(Ev::Order(s.clone(), open(1, 50, 50)))),
-        ("cancelled", step(Ev::Order(s.clone(), OSt::Cancelled(210)))),
+        ("open_newer_partial", step(Ev::Order(s.clone(), open(1, 200 * MS, 20)))),
+        ("open_equal_t", step(Ev::Order(s.clone(), open(1, 100 * MS, 30)))),
+        ("open_plus_1ns", step(Ev::Order(s.clone(), open(1, 100 * MS + 1, 30)))),
+        ("open_minus_1ns", step(Ev::Order(s.clone(), open(1, 100 * MS - 1, 30)))),
+        ("open_same_ms_later", step(Ev::Order(s.clone(), open(1, 100 * MS + 999_999, 30)))),
+        ("open_same_sec_earlier", step(Ev::Order(s.clone(), open(1, 100 * MS - 99 * MS, 30)))),
+        ("open_older", step(Ev::Order(s.clone(), open(1, 50 * MS, 5)))),
+        ("open_newer_full", step(Ev::Order(s.clone(), open(1, 200 * MS, 50)))),
+        ("open_equal_t_full", step(Ev::Order(s.clone(), open(1, 100 * MS, 50)))),
+        ("open_older_full", step(Ev::Order(s.clone(), open(1, 50 * MS, 50)))),
+        ("cancelled", step(Ev::Order(s.clone(), OSt::Cancelled(210 * MS)))),
         ("filled", step(Ev::Order(s.clone(), OSt::Filled))),
         ("expired", step(Ev::Order(s.clone(), OSt::Expired))),
-        ("failed", step(Ev::Order(s.clone(), OSt::Failed))),
-        ("cancel_ok", step(Ev::CancelResp { key: k.clone(), ok: true, t: 220 })),
-        ("cancel_err", step(Ev::CancelResp { key: k.clone(), ok: false, t: 220 })),
+        ("failed", step(Ev::Order(s.clone(), OSt::Failed(6)))),
+        ("cancel_ok", step(Ev::CancelResp { key: k.clone(), ok: true, t: 220 * MS, err: 0 })),
+        ("cancel_err", step(Ev::CancelResp { key: k.clone(), ok: false, t: 220 * MS, err: 8 })),
         ("cmd_cancel", step(Ev::CmdCancels(vec![k.clone()]))),
         ("cmd_cancel_all", step(Ev::CmdCancelOrders(None))),
         ("cmd_cancel_instr0", step(Ev::CmdCancelOrders(Some(vec![0])))),
         ("cmd_cancel_instr1", step(Ev::CmdCancelOrders(Some(vec![1])))),
         ("cmd_open_fresh", step(Ev::CmdOpens(vec![fresh.clone()]))),
         ("cmd_close", (Ev::CmdClose(None), TickScript { co: vec![fresh.clone()], cc: vec![k.clone()], ..ts() })),
-        ("trade", step(Ev::Trade { i: 0, side: 0, price: 1000, qty: 10, fee: 1, t: 230, n: 1 })),
-        ("balance", step(Ev::Balance(BalIn { asset: 1, total: 5000, free: 4000, t: 230 }))),
-        ("market", step(Ev::MktTrade { i: 0, price: 401, t: 230 })),
+        ("trade", step(Ev::Trade { i: 0, side: 0, price: 1000, qty: 10, fee: 1, t: 230 * MS, n: 1 })),
+        ("balance", step(Ev::Balance(BalIn { asset: 1, total: 5000, free: 4000, t: 230 * MS }))),
+        ("market", step(Ev::MktTrade { i: 0, price: 401, t: 230 * MS })),
         ("algo", (Ev::Trading(true), TickScript { ac: vec![k.clone()], ao: vec![fresh.clone()], ..ts() })),
         ("account_snapshot", step(Ev::Snapshot {
             ex: 0,
-            balances: vec![BalIn { asset: 0, total: 70, free: 60, t: 240 }],
-            orders: vec![(s.clone(), open(1, 200, 20)), (spec(1, 9), open(9, 200, 0))],
+            balances: vec![BalIn { asset: 0, total: 70, free: 60, t: 240 * MS }],
+            orders: vec![(s.clone(), open(1, 200 * MS, 20)), (spec(0, 8), open(8, 200 * MS, 0)), (spec(1, 9), open(9, 200 * MS, 0))],
         })),
     ];
     for (sname, pre, post) in &setups {
         for (oname, op) in &ops {
             let mut feed: Vec<(Ev, TickScript)> = post.iter().cloned().map(step).collect();
             feed.push(op.clone());
-            feed.push(step(Ev::Order(s.clone(), open(1, 300, 25))));
-            feed.push(step(Ev::CancelResp { key: k.clone(), ok: false, t: 310 }));
+            // the follow-up repeats the timestamp of the "newer" ops: one more tie
+            feed.push(step(Ev::Order(s.clone(), open(1, 200 * MS, 25))));
+            feed.push(step(Ev::CancelResp { key: k.clone(), ok: false, t: 310 * MS, err: 2 }));
+            feed.push(step(Ev::Order(s.clone(), open(1, 300 * MS, 26))));
             let inp = input(0, pre.iter().cloned().map(step).collect(), feed);
             let mut c = run_case(&inp, "table");
             c.tags.push(format!("pair_{sname}"));
@@ -87,93 +111,207 @@ fn table_orders(em: &mut Emitter) {
 // ---------------------------------------------------------------------------------------------
 // table B: every event kind x trading x strategy behaviour x runner
 // ---------------------------------------------------------------------------------------------
-fn all_event_kinds() -> Vec<Ev> {
-    let s = spec(0, 1);
+fn core_event_kinds(tp: &Topo) -> Vec<Ev> {
     vec![
         Ev::Shutdown,
-        Ev::CmdCancels(vec![key(0, 1), key(1, 5)]),
-        Ev::CmdOpens(vec![spec(1, 20)]),
-        Ev::CmdOpens(vec![spec(1, 21), spec(2, 22)]),
-        Ev::CmdClose(Some(vec![0])),
+        Ev::CmdCancels(vec![key(tp.g0, 1), key(tp.g1, 5)]),
+        Ev::CmdOpens(vec![spec(tp.g1, 20)]),
+        Ev::CmdOpens(vec![spec(tp.g1, 21), spec(tp.bad, 22)]),
+        Ev::CmdClose(Some(vec![tp.g0])),
         Ev::CmdCancelOrders(None),
-        Ev::CmdCancelOrders(Some(vec![2])),
+        Ev::CmdCancelOrders(Some(vec![tp.bad])),
         Ev::Trading(true),
         Ev::Trading(false),
         Ev::AccReconn(0),
+        Ev::AccReconn(1),
         Ev::MktReconn(1),
-        Ev::Balance(BalIn { asset: 2, total: 900, free: 800, t: 50 }),
-        Ev::Order(s.clone(), open(1, 60, 10)),
-        Ev::Order(spec(2, 7), open(7, 60, 0)),
-        Ev::CancelResp { key: key(1, 5), ok: true, t: 60 },
-        Ev::Trade { i: 1, side: 0, price: 2000, qty: 10, fee: 2, t: 60, n: 3 },
-        Ev::Snapshot { ex: 1, balances: vec![BalIn { asset: 4, total: 100, free: 100, t: 60 }], orders: vec![(spec(2, 8), open(8, 61, 5))] },
-        Ev::MktTrade { i: 1, price: 808, t: 60 },
-        Ev::MktL1 { i: 0, bid: 39900, ask: 40100, t: 60 },
+        Ev::MktReconn(2),
+        Ev::Balance(BalIn { asset: 2, total: 900, free: 800, t: 50 * MS }),
+        Ev::Order(spec(tp.g0, 1), open(1, 60 * MS, 10)),
+        Ev::Order(spec(tp.bad, 7), open(7, 60 * MS, 0)),
+        Ev::CancelResp { key: key(tp.g1, 5), ok: true, t: 60 * MS, err: 0 },
+        Ev::Trade { i: tp.g1, side: 0, price: 2000, qty: 10, fee: 2, t: 60 * MS, n: 3 },
+        Ev::Snapshot {
+            ex: 1,
+            balances: vec![BalIn { asset: 4, total: 100, free: 100, t: 60 * MS }],
+            orders: vec![(spec(tp.bad, 8), open(8, 61 * MS, 5)), (spec(tp.bad, 9), open(9, 61 * MS, 0)), (spec(tp.far, 10), OSt::Filled)],
+        },
+        Ev::MktTrade { i: tp.g1, price: 808, t: 60 * MS },
+        Ev::MktL1 { i: tp.g0, bid: 39900, ask: 40100, t: 60 * MS, sides: 0 },
     ]
 }
 
+/// the remaining constructible item kinds: every error class of an order response, one-sided and
+/// empty L1, full books, candles, liquidations, trades closing / flipping the position
+fn variant_event_kinds(tp: &Topo) -> Vec<Ev> {
+    let mut v = vec![];
+    for err in 0..10u8 {
+        v.push(Ev::CancelResp { key: key(tp.g1, 5), ok: false, t: 60 * MS, err });
+        v.push(Ev::Order(spec(tp.g0, 1), OSt::Failed(err)));
+    }
+    v.push(Ev::Order(spec(tp.g1, 5), OSt::Cancelled(60 * MS)));
+    v.push(Ev::Order(spec(tp.g1, 5), OSt::Expired));
+    for sides in 1..4u8 {
+        v.push(Ev::MktL1 { i: tp.g1, bid: 79900, ask: 80100, t: 60 * MS, sides });
+    }
+    v.push(Ev::MktBook { i: tp.g1, t: 60 * MS, snapshot: true });
+    v.push(Ev::MktBook { i: tp.g1, t: 60 * MS, snapshot: false });
+    v.push(Ev::MktCandle { i: tp.g1, t: 60 * MS });
+    v.push(Ev::MktLiq { i: tp.g1, t: 60 * MS });
+    // the pre-roll leaves a long position of 10 on g1: reduce, close exactly, flip
+    v.push(Ev::Trade { i: tp.g1, side: 1, price: 2100, qty: 4, fee: 1, t: 60 * MS, n: 4 });
+    v.push(Ev::Trade { i: tp.g1, side: 1, price: 2100, qty: 10, fee: 1, t: 60 * MS, n: 5 });
+    v.push(Ev::Trade { i: tp.g1, side: 1, price: 1900, qty: 25, fee: 1, t: 60 * MS, n: 6 });
+    v.push(Ev::Snapshot { ex: 0, balances: vec![], orders: vec![] });
+    v
+}
+
 fn table_events(em: &mut Emitter) {
+    let tp = topo();
     let pre = vec![
-        step(Ev::CmdOpens(vec![spec(0, 1)])),
-        step(Ev::Order(spec(1, 5), open(5, 10, 0))),
-        step(Ev::Trade { i: 1, side: 0, price: 2000, qty: 10, fee: 1, t: 11, n: 1 }),
-        step(Ev::MktTrade { i: 1, price: 800, t: 12 }),
+        step(Ev::CmdOpens(vec![spec(tp.g0, 1)])),
+        step(Ev::Order(spec(tp.g1, 5), open(5, 10 * MS, 0))),
+        step(Ev::Trade { i: tp.g1, side: 0, price: 2000, qty: 10, fee: 1, t: 11 * MS, n: 1 }),
+        step(Ev::MktTrade { i: tp.g1, price: 800, t: 12 * MS }),
     ];
-    for (n, ev) in all_event_kinds().into_iter().enumerate() {
+    let emit = |n: usize, ev: &Ev, trading0: bool, strat: u8, mode: u8, em: &mut Emitter| {
+        let script = match strat {
+            0 => ts(),
+            1 => TickScript { ao: vec![spec(tp.g0, 30)], ac: vec![key(tp.g1, 5)], co: vec![spec(tp.g1, 31)], ..ts() },
+            _ => TickScript { ao: vec![spec(tp.bad, 32), spec(tp.g0, 33)], co: vec![spec(tp.bad, 34)], ..ts() },
+        };
+        let hooks: &[bool] = if matches!(ev, Ev::Trading(false) | Ev::AccReconn(_) | Ev::MktReconn(_)) && strat == 0 {
+            &[false, true]
+        } else {
+            &[false]
+        };
+        for hook in hooks {
+            let mut inp = input(
+                mode,
+                pre.clone(),
+                vec![
+                    (ev.clone(), script.clone()),
+                    // equal exchange time as the event before: consecutive ties
+                    step(Ev::MktTrade { i: tp.g1, price: 404, t: 60 * MS }),
+                    step(Ev::Shutdown),
+                    step(Ev::MktTrade { i: tp.g0, price: 408, t: 80 * MS }),
+                ],
+            );
+            inp.trading0 = trading0;
+            inp.hook = *hook;
+            inp.link = if strat == 2 { 1 + (n as u8 + mode) % 2 } else { 0 };
+            inp.s_init = [0, 3, 41][(n + mode as usize) % 3];
+            em.emit(run_case(&inp, "table"));
+        }
+    };
+    for (n, ev) in core_event_kinds(&tp).iter().enumerate() {
         for trading0 in [false, true] {
             for strat in 0..3u8 {
                 for mode in 0..3u8 {
-                    let script = match strat {
-                        0 => ts(),
-                        1 => TickScript { ao: vec![spec(0, 30)], ac: vec![key(1, 5)], co: vec![spec(1, 31)], ..ts() },
-                        _ => TickScript { ao: vec![spec(2, 32), spec(0, 33)], co: vec![spec(2, 34)], ..ts() },
-                    };
-                    let hooks: &[bool] = if matches!(ev, Ev::Trading(false) | Ev::AccReconn(_) | Ev::MktReconn(_)) && strat == 0 {
-                        &[false, true]
-                    } else {
-                        &[false]
-                    };
-                    for hook in hooks {
-                        let mut inp = input(
-                            mode,
-                            pre.clone(),
-                            vec![
-                                (ev.clone(), script.clone()),
-                                step(Ev::MktTrade { i: 0, price: 404, t: 70 }),
-                                step(Ev::Shutdown),
-                                step(Ev::MktTrade { i: 0, price: 408, t: 80 }),
-                            ],
-                        );
-                        inp.trading0 = trading0;
-                        inp.hook = *hook;
-                        inp.link = if strat == 2 { 1 + (n as u8 + mode) % 2 } else { 0 };
-                        inp.s_init = [0, 3, 41][(n + mode as usize) % 3];
-                        em.emit(run_case(&inp, "table"));
-                    }
+                    emit(n, ev, trading0, strat, mode, em);
                 }
+            }
+        }
+    }
+    for (n, ev) in variant_event_kinds(&tp).iter().enumerate() {
+        for (trading0, strat) in [(false, 0u8), (true, 1u8)] {
+            for mode in 0..3u8 {
+                emit(n, ev, trading0, strat, mode, em);
             }
         }
     }
 }
 
 // ---------------------------------------------------------------------------------------------
-// table C: one tick deleted / duplicated / swapped / replayed, at every position
+// table B2: positions opened / increased / reduced / closed / flipped on every instrument kind
+// (tear sheets and balances change), and the same command three times
+// ---------------------------------------------------------------------------------------------
+fn table_positions_and_repeats(em: &mut Emitter) {
+    let tp = topo();
+    for i in 0..N_INSTR {
+        for mode in 0..3u8 {
+            let mut n = 0u64;
+            let mut t = 5 * MS;
+            let mut trade = |side: u8, price: i64, qty: i64| {
+                n += 1;
+                t += 700_000; // 0.7 ms apart: two trades share a millisecond
+                step(Ev::Trade { i, side, price, qty, fee: 2, t, n })
+            };
+            let feed = vec![
+                step(Ev::MktTrade { i, price: 4000, t: 1 * MS }),
+                trade(0, 1000, 10), // open long
+                trade(0, 1010, 5),  // increase
+                step(Ev::MktL1 { i, bid: 101000, ask: 101200, t: 6 * MS, sides: 0 }),
+                trade(1, 1020, 6),  // reduce
+                trade(1, 1030, 9),  // close exactly -> tear sheet
+                trade(1, 1030, 7),  // open short
+                trade(0, 990, 20),  // flip -> tear sheet + new long
+                step(Ev::Balance(BalIn { asset: i, total: 9000, free: 8000, t: 9 * MS })),
+                trade(1, 1005, 13), // close
+                step(Ev::Shutdown),
+            ];
+            let mut inp = input(mode, vec![], feed);
+            inp.s_init = 2;
+            em.emit(run_case(&inp, "table"));
+        }
+    }
+    // the same command three times in a row (the second and third find the requests in flight)
+    let s = spec(tp.g0, 1);
+    let cmds: Vec<(Ev, TickScript)> = vec![
+        step(Ev::CmdCancelOrders(None)),
+        step(Ev::CmdCancels(vec![key(tp.g0, 1), key(tp.g0, 1)])), // the same key twice in one list
+        step(Ev::CmdOpens(vec![spec(tp.g1, 40)])),
+        (Ev::CmdClose(None), TickScript { co: vec![spec(tp.g1, 41)], cc: vec![key(tp.g0, 1)], ..ts() }),
+        step(Ev::CmdCancelOrders(Some(vec![tp.g0, tp.g0]))), // the same instrument twice in a filter
+    ];
+    for (c, cmd) in cmds.iter().enumerate() {
+        for mode in 0..3u8 {
+            for trading0 in [false, true] {
+                let mut inp = input(
+                    mode,
+                    vec![step(Ev::Order(s.clone(), open(1, 5 * MS, 10))), step(Ev::CmdOpens(vec![spec(tp.g1, 3)]))],
+                    vec![
+                        cmd.clone(),
+                        cmd.clone(),
+                        cmd.clone(),
+                        step(Ev::Order(s.clone(), open(1, 5 * MS, 20))),
+                        step(Ev::CancelResp { key: key(tp.g0, 1), ok: false, t: 6 * MS, err: c as u8 }),
+                        step(Ev::Shutdown),
+                    ],
+                );
+                inp.trading0 = trading0;
+                em.emit(run_case(&inp, "table"));
+            }
+        }
+    }
+}
+
+// ---------------------------------------------------------------------------------------------
+// table C: one tick deleted / duplicated / tripled / swapped / replayed, at every position
 // ---------------------------------------------------------------------------------------------
 fn table_perturb(em: &mut Emitter) {
     let s = spec(0, 1);
     let base: Vec<(Ev, TickScript)> = vec![
-        step(Ev::MktTrade { i: 0, price: 400, t: 1 }),
+        step(Ev::MktTrade { i: 0, price: 400, t: 1 * MS }),
         step(Ev::CmdOpens(vec![s.clone()])),
-        step(Ev::Order(s.clone(), open(1, 5, 10))),
-        step(Ev::Trade { i: 0, side: 0, price: 1000, qty: 10, fee: 1, t: 6, n: 1 }),
+        step(Ev::Order(s.clone(), open(1, 5 * MS, 10))),
+        step(Ev::Trade { i: 0, side: 0, price: 1000, qty: 10, fee: 1, t: 6 * MS, n: 1 }),
         step(Ev::Trading(true)),
-        step(Ev::Balance(BalIn { asset: 1, total: 77, free: 66, t: 7 })),
+        step(Ev::Balance(BalIn { asset: 1, total: 77, free: 66, t: 7 * MS })),
         step(Ev::Shutdown),
     ];
     // process_with_audit on a stream without a terminal record: run() reads the replayed part too
     let open_ended: Vec<(Ev, TickScript)> = base[..base.len() - 1].to_vec();
     for i in 0..open_ended.len() {
-        for p in [Perturb::Delete(i), Perturb::Dup(i), Perturb::Replay(i), Perturb::Window(i, 2), Perturb::Window(i, 3), Perturb::Window(0, i + 1)] {
+        for p in [
+            Perturb::Delete(i),
+            Perturb::Dup(i),
+            Perturb::Triple(i),
+            Perturb::Replay(i),
+            Perturb::Window(i, 2),
+            Perturb::Window(i, 3),
+            Perturb::Window(0, i + 1),
+        ] {
             let mut inp = input(0, vec![], open_ended.clone());
             inp.s_init = 4;
             inp.perturb = p;
@@ -182,7 +320,15 @@ fn table_perturb(em: &mut Emitter) {
     }
     for mode in 0..3u8 {
         for i in 0..=base.len() {
-            for p in [Perturb::Delete(i), Perturb::Dup(i), Perturb::Swap(i), Perturb::Replay(i), Perturb::Window(i, 2), Perturb::Window(i, 4)] {
+            for p in [
+                Perturb::Delete(i),
+                Perturb::Dup(i),
+                Perturb::Triple(i),
+                Perturb::Swap(i),
+                Perturb::Replay(i),
+                Perturb::Window(i, 2),
+                Perturb::Window(i, 4),
+            ] {
                 let mut inp = input(mode, vec![], base.clone());
                 inp.s_init = 9;
                 inp.perturb = p;
@@ -201,19 +347,23 @@ struct Sh {
     next_n: u64,
     t: i64,
     specs: Vec<Spec>,
+    net: [i64; N_INSTR], // signed quantity of the trades sent so far, per instrument
     issuing: bool,
     adversarial: bool,
 }
 
 impl Sh {
     fn new(rng: Rng, issuing: bool, adversarial: bool) -> Sh {
-        Sh { rng, next_c: 1, next_n: 1, t: 1000, specs: vec![], issuing, adversarial }
+        Sh { rng, next_c: 1, next_n: 1, t: 1_000_000 * MS, specs: vec![], net: [0; N_INSTR], issuing, adversarial }
+    }
+    fn instr(&mut self) -> usize {
+        self.rng.below(N_INSTR as u64) as usize
     }
     fn fresh(&mut self, strat: u8) -> Spec {
         let c = self.next_c;
         self.next_c += 1;
         let s = Spec {
-            i: self.rng.below(N_INSTR as u64) as usize,
+            i: self.instr(),
             c,
             side: self.rng.below(2) as u8,
             price: self.rng.range(900, 1100),
@@ -239,19 +389,53 @@ impl Sh {
     }
     fn known_key(&mut self) -> Key {
         if self.specs.is_empty() || self.rng.chance(1, 10) {
-            key(self.rng.below(N_INSTR as u64) as usize, 900 + self.rng.below(3))
+            key(self.instr(), 900 + self.rng.below(3))
         } else {
             self.rng.pick(&self.specs).key()
         }
     }
+    /// exchange timestamps (ns): exact ties are the most frequent single outcome, then gaps of
+    /// 1 ns .. 999 us (inside one millisecond), millisecond boundaries, ordinary gaps, stale values
+    /// by 1 ns .. 100 ms, and now and then the far past / far future
     fn time(&mut self) -> i64 {
-        match self.rng.below(20) {
-            0..=13 => {
-                self.t += self.rng.range(1, 50);
+        match self.rng.below(40) {
+            0..=10 => self.t,
+            11..=14 => {
+                self.t += 1;
                 self.t
             }
-            14..=16 => self.t,
-            _ => self.t - self.rng.range(1, 100),
+            15..=17 => {
+                self.t += self.rng.range(2, 999);
+                self.t
+            }
+            18..=20 => {
+                self.t += self.rng.range(1_000, 999_999);
+                self.t
+            }
+            21 => {
+                self.t = (self.t / MS + 1) * MS; // exactly on the next millisecond
+                self.t
+            }
+            22 => {
+                self.t = (self.t / MS + 1) * MS - 1; // 1 ns before it
+                self.t
+            }
+            23..=29 => {
+                self.t += self.rng.range(1, 50) * MS + self.rng.range(0, 999_999);
+                self.t
+            }
+            30..=31 => self.t - 1,
+            32..=33 => self.t - self.rng.range(2, 999_999),
+            34..=36 => self.t - self.rng.range(1, 100) * MS,
+            37 => self.t - 1_000 * MS, // one second back
+            38 => -4_000_000_000 * MS, // far past
+            _ => {
+                if self.rng.chance(1, 4) {
+                    2_000_000_000 * MS // far future (not remembered)
+                } else {
+                    self.t
+                }
+            }
         }
     }
     fn order_state(&mut self, s: &Spec) -> OSt {
@@ -279,7 +463,7 @@ impl Sh {
             70..=79 => OSt::Cancelled(self.time()),
             80..=89 => OSt::Filled,
             90..=94 => OSt::Expired,
-            _ => OSt::Failed,
+            _ => OSt::Failed(self.rng.below(10) as u8),
         }
     }
     fn report(&mut self) -> (Spec, OSt) {
@@ -301,14 +485,35 @@ impl Sh {
     }
     fn balance(&mut self) -> BalIn {
         let total = self.rng.range(0, 100_000);
-        BalIn { asset: self.rng.below(5) as usize, total, free: total - self.rng.range(0, total.max(1)) , t: self.time() }
+        BalIn { asset: self.rng.below(12) as usize, total, free: total - self.rng.range(0, total.max(1)), t: self.time() }
     }
     fn filter(&mut self) -> Option<Vec<usize>> {
-        match self.rng.below(4) {
+        match self.rng.below(5) {
             0 | 1 => None,
-            2 => Some(vec![self.rng.below(N_INSTR as u64) as usize]),
-            _ => Some(vec![0, 2]),
+            2 => Some(vec![self.instr()]),
+            3 => Some(vec![self.instr(), self.instr()]),
+            _ => Some(vec![0, 2, 4]),
         }
+    }
+    /// a fill: mostly sized so that positions get reduced, closed exactly and flipped
+    fn trade(&mut self) -> Ev {
+        let i = self.instr();
+        let net = self.net[i];
+        let (side, qty) = if net != 0 && self.rng.chance(3, 5) {
+            let closing_side = if net > 0 { 1 } else { 0 };
+            let q = match self.rng.below(4) {
+                0 => net.abs(),                      // close exactly
+                1 => (net.abs() / 2).max(1),         // reduce
+                2 => net.abs() + *self.rng.pick(&[5, 10]), // flip
+                _ => *self.rng.pick(&[5, 10, 20]),
+            };
+            (closing_side, q)
+        } else {
+            (self.rng.below(2) as u8, *self.rng.pick(&[5, 10, 10, 20]))
+        };
+        self.net[i] += if side == 0 { qty } else { -qty };
+        self.next_n += 1;
+        Ev::Trade { i, side, price: self.rng.range(900, 1100), qty, fee: self.rng.range(0, 5), t: self.time(), n: self.next_n }
     }
     fn script(&mut self, close: bool) -> TickScript {
         let mut s = ts();
@@ -336,44 +541,32 @@ impl Sh {
         s
     }
     fn event(&mut self) -> (Ev, TickScript) {
-        let w = self.rng.below(105);
+        let w = self.rng.below(112);
         let ev = match w {
-            0..=14 => Ev::MktTrade { i: self.rng.below(N_INSTR as u64) as usize, price: self.rng.range(3600, 4400), t: self.time() },
-            15..=20 => {
+            0..=12 => Ev::MktTrade { i: self.instr(), price: self.rng.range(3600, 4400), t: self.time() },
+            13..=20 => {
                 let bid = self.rng.range(90_000, 110_000);
-                Ev::MktL1 { i: self.rng.below(N_INSTR as u64) as usize, bid, ask: bid + self.rng.range(1, 500), t: self.time() }
+                let sides = *self.rng.pick(&[0, 0, 0, 0, 1, 2, 3]);
+                Ev::MktL1 { i: self.instr(), bid, ask: bid + self.rng.range(1, 500), t: self.time(), sides }
             }
             21..=26 => Ev::Balance(self.balance()),
             27..=46 => {
                 let (s, st) = self.report();
                 Ev::Order(s, st)
             }
-            47..=54 => Ev::CancelResp { key: self.known_key(), ok: self.rng.chance(1, 2), t: self.time() },
-            55..=64 => {
-                self.next_n += 1;
-                Ev::Trade {
-                    i: self.rng.below(N_INSTR as u64) as usize,
-                    side: self.rng.below(2) as u8,
-                    price: self.rng.range(900, 1100),
-                    qty: *self.rng.pick(&[5, 10, 10, 20]),
-                    fee: self.rng.range(0, 5),
-                    t: self.time(),
-                    n: self.next_n,
-                }
-            }
-            65..=67 => {
+            47..=54 => Ev::CancelResp { key: self.known_key(), ok: self.rng.chance(1, 2), t: self.time(), err: self.rng.below(10) as u8 },
+            55..=66 => self.trade(),
+            67..=69 => {
                 let nb = self.rng.below(3);
-                let no = self.rng.below(4);
-                Ev::Snapshot {
-                    ex: self.rng.below(2) as usize,
-                    balances: (0..nb).map(|_| self.balance()).collect(),
-                    orders: (0..no).map(|_| self.report()).collect(),
-                }
+                let no = self.rng.below(5);
+                let mut orders: Vec<(Spec, OSt)> = (0..no).map(|_| self.report()).collect();
+                orders.sort_by_key(|(s, _)| s.i); // orders of one instrument end up nested together
+                Ev::Snapshot { ex: self.rng.below(3) as usize, balances: (0..nb).map(|_| self.balance()).collect(), orders }
             }
-            68..=75 => Ev::Trading(self.rng.chance(3, 5)),
-            76..=78 => Ev::AccReconn(self.rng.below(2) as usize),
-            79..=81 => Ev::MktReconn(self.rng.below(2) as usize),
-            82..=85 => {
+            70..=77 => Ev::Trading(self.rng.chance(3, 5)),
+            78..=80 => Ev::AccReconn(self.rng.below(3) as usize),
+            81..=83 => Ev::MktReconn(self.rng.below(3) as usize),
+            84..=87 => {
                 let n = 1 + self.rng.below(2);
                 let mut ks: Vec<Key> = vec![];
                 for _ in 0..n {
@@ -384,13 +577,16 @@ impl Sh {
                 }
                 Ev::CmdCancels(ks)
             }
-            86..=91 => {
+            88..=93 => {
                 let n = 1 + self.rng.below(2);
                 Ev::CmdOpens((0..n).map(|_| self.open_spec()).collect())
             }
-            92..=95 => Ev::CmdClose(self.filter()),
-            96..=99 => Ev::CmdCancelOrders(self.filter()),
-            100 => Ev::Shutdown,
+            94..=97 => Ev::CmdClose(self.filter()),
+            98..=101 => Ev::CmdCancelOrders(self.filter()),
+            102 => Ev::Shutdown,
+            103..=105 => Ev::MktBook { i: self.instr(), t: self.time(), snapshot: self.rng.chance(1, 2) },
+            106..=107 => Ev::MktCandle { i: self.instr(), t: self.time() },
+            108..=109 => Ev::MktLiq { i: self.instr(), t: self.time() },
             _ => Ev::MktTrade { i: 0, price: self.rng.range(3600, 4400), t: self.time() },
         };
         let close = matches!(ev, Ev::CmdClose(_));
@@ -412,15 +608,25 @@ fn random_case(rng: &mut Rng, max_len: u64, adversarial: bool) -> Input {
             }
         })
         .collect();
-    let mut feed: Vec<(Ev, TickScript)> = (0..n_feed).map(|_| sh.event()).collect();
+    let mut feed: Vec<(Ev, TickScript)> = vec![];
+    while (feed.len() as u64) < n_feed {
+        let e = sh.event();
+        // now and then the same event (command, report, market item) three times in a row
+        if e.0 != Ev::Shutdown && rng.chance(1, 25) {
+            feed.push(e.clone());
+            feed.push(e.clone());
+        }
+        feed.push(e);
+    }
     if rng.chance(3, 5) {
         feed.push(step(Ev::Shutdown));
     }
     let n = feed.len() + 1;
     let perturb = if rng.chance(1, 4) {
         let i = rng.below(n as u64 + 1) as usize;
-        match rng.below(6) {
+        match rng.below(7) {
             4 | 5 => Perturb::Window(i, 2 + rng.below(4) as usize),
+            6 => Perturb::Triple(i),
             0 => Perturb::Delete(i),
             1 => Perturb::Dup(i),
             2 => Perturb::Swap(i),
@@ -442,7 +648,8 @@ fn random_case(rng: &mut Rng, max_len: u64, adversarial: bool) -> Input {
 }
 
 fn handcrafted_adversarial(em: &mut Emitter) {
-    let s = spec(0, 1);
+    let tp = topo();
+    let s = spec(tp.g0, 1);
     for mode in 0..3u8 {
         // empty feed; shutdown only; events after shutdown; huge sequence
         em.emit(run_case(&input(mode, vec![], vec![]), "adversarial"));
@@ -450,19 +657,19 @@ fn handcrafted_adversarial(em: &mut Emitter) {
         let mut i3 = input(
             mode,
             vec![step(Ev::CmdOpens(vec![s.clone()]))],
-            vec![step(Ev::Shutdown), step(Ev::Order(s.clone(), open(1, 5, 0))), step(Ev::Shutdown)],
+            vec![step(Ev::Shutdown), step(Ev::Order(s.clone(), open(1, 5 * MS, 0))), step(Ev::Shutdown)],
         );
         i3.s_init = 1u64 << 62;
         em.emit(run_case(&i3, "adversarial"));
-        // fatal on the first event: command to the broken link, trading disabled / enabled
+        // fatal on the first event: command to the broken (middle) link, trading disabled / enabled
         for link in 1..3u8 {
             for trading0 in [false, true] {
                 let mut i4 = input(
                     mode,
                     vec![],
                     vec![
-                        step(Ev::CmdOpens(vec![spec(2, 4), spec(0, 5)])),
-                        step(Ev::MktTrade { i: 0, price: 400, t: 3 }),
+                        step(Ev::CmdOpens(vec![spec(tp.bad, 4), spec(tp.g0, 5), spec(tp.far, 6)])),
+                        step(Ev::MktTrade { i: tp.g0, price: 400, t: 3 * MS }),
                     ],
                 );
                 i4.link = link;
@@ -473,8 +680,8 @@ fn handcrafted_adversarial(em: &mut Emitter) {
                     mode,
                     vec![],
                     vec![
-                        (Ev::MktTrade { i: 0, price: 400, t: 3 }, TickScript { ao: vec![spec(0, 6), spec(2, 7)], ..ts() }),
-                        step(Ev::MktTrade { i: 0, price: 404, t: 4 }),
+                        (Ev::MktTrade { i: tp.g0, price: 400, t: 3 * MS }, TickScript { ao: vec![spec(tp.g0, 6), spec(tp.bad, 7), spec(tp.far, 8)], ..ts() }),
+                        step(Ev::MktTrade { i: tp.g0, price: 404, t: 4 * MS }),
                     ],
                 );
                 i5.link = link;
@@ -488,9 +695,9 @@ fn handcrafted_adversarial(em: &mut Emitter) {
                 mode,
                 vec![],
                 vec![
-                    step(Ev::Order(s.clone(), open(1, 5, 10))),
+                    step(Ev::Order(s.clone(), open(1, 5 * MS, 10))),
                     step(Ev::CmdOpens(vec![s.clone()])),
-                    step(Ev::Order(s.clone(), open(1, 6, 20))),
+                    step(Ev::Order(s.clone(), open(1, 6 * MS, 20))),
                 ],
             ),
             "adversarial",
@@ -499,7 +706,7 @@ fn handcrafted_adversarial(em: &mut Emitter) {
         let mut s2 = s.clone();
         s2.qty = 70;
         em.emit(run_case(
-            &input(mode, vec![], vec![step(Ev::CmdOpens(vec![s.clone()])), step(Ev::Order(s2, open(1, 6, 20)))]),
+            &input(mode, vec![], vec![step(Ev::CmdOpens(vec![s.clone()])), step(Ev::Order(s2, open(1, 6 * MS, 20)))]),
             "adversarial",
         ));
         // in-flight states inside exchange reports
@@ -509,13 +716,37 @@ fn handcrafted_adversarial(em: &mut Emitter) {
                 vec![],
                 vec![
                     step(Ev::Order(s.clone(), OSt::Oif)),
-                    step(Ev::Order(spec(1, 2), OSt::Cif(Some(MetaIn { oid: 2, t: 9, filled: 0 })))),
+                    step(Ev::Order(spec(tp.g1, 2), OSt::Cif(Some(MetaIn { oid: 2, t: 9 * MS, filled: 0 })))),
                     step(Ev::Order(s.clone(), OSt::Cif(None))),
-                    step(Ev::Order(s.clone(), open(1, 12, 20))),
+                    step(Ev::Order(s.clone(), open(1, 12 * MS, 20))),
                 ],
             ),
             "adversarial",
         ));
+        // CancelInFlight vs Open reports at EQUAL, +-1 ns and same-millisecond exchange times, with the
+        // cancel sent by command, by the strategy and by a hook
+        for (k, dt) in [0i64, 1, -1, 999_999, -999_999, MS, -MS].iter().enumerate() {
+            let mut i6 = input(
+                mode,
+                vec![step(Ev::Order(s.clone(), open(1, 50 * MS, 5)))],
+                vec![
+                    if k % 3 == 0 {
+                        step(Ev::CmdCancels(vec![s.key()]))
+                    } else if k % 3 == 1 {
+                        (Ev::MktTrade { i: tp.g0, price: 400, t: 50 * MS }, TickScript { ac: vec![s.key()], ..ts() })
+                    } else {
+                        step(Ev::AccReconn(0))
+                    },
+                    step(Ev::Order(s.clone(), open(1, 50 * MS + dt, 15))),
+                    step(Ev::Order(s.clone(), open(1, 50 * MS + dt, 25))),
+                    step(Ev::CancelResp { key: s.key(), ok: false, t: 50 * MS + dt, err: 0 }),
+                    step(Ev::Order(s.clone(), open(1, 50 * MS + dt, 35))),
+                ],
+            );
+            i6.trading0 = true;
+            i6.hook = true;
+            em.emit(run_case(&i6, "adversarial"));
+        }
     }
 }
 
@@ -524,9 +755,10 @@ pub fn generate(seed: u64, tier: &str, em: &mut Emitter) {
     let mut rng = Rng::new(seed);
     table_orders(em);
     table_events(em);
+    table_positions_and_repeats(em);
     table_perturb(em);
     handcrafted_adversarial(em);
-    let (n_random, n_adv, max_len) = if thorough { (2500, 600, 80) } else { (230, 70, 28) };
+    let (n_random, n_adv, max_len) = if thorough { (2500, 600, 80) } else { (260, 80, 28) };
     for _ in 0..n_random {
         let inp = random_case(&mut rng, max_len, false);
         em.emit(run_case(&inp, "random"));
